@@ -73,6 +73,9 @@ fn main() {
             let count = arg_val(&args, "--count").and_then(|s| s.parse().ok()).unwrap_or(1);
             std::process::exit(batch_main(check.as_mut(), tier, seed, from, count));
         }
+        "ecoprobe" => {
+            std::process::exit(props::c12::ecoprobe_main(&args[1 ..]));
+        }
         "sockprobe" => {
             std::process::exit(props::c12::sockprobe_main(&args[1 ..]));
         }
